@@ -149,6 +149,11 @@ class Program:
 
 def pick_mem(rng, v, vmax, forget):
     """memory type of a logical access: (token, k, flex, bufkind); half of them need no conversion"""
+    # the packing-buffer (nc_ibuf_size) branch of ncmpio_read_write is reached only with a
+    # non-contiguous buffer type that needs neither conversion nor byte swap: a one-byte element
+    # type accessed through a vector layout of the same type
+    if v.xtype in (1, 2, 7) and rng.chance(1, 2):
+        return 'x%d' % v.xtype, v.xtype, True, 'v'
     for _ in range(30):
         if v.xtype == 2:
             k = 2
@@ -218,6 +223,11 @@ def gen_program(rng, big=None):
                 start, count, stride = [0, 0], list(v.shape), [1, 1]
                 if rng.chance(1, 2):
                     count[0] = rng.range(v.shape[0] // 2, v.shape[0])
+            elif v.xtype in (1, 2, 7) and v.nd > 0 and rng.chance(1, 2):
+                # whole one-byte variables: long enough vector buffers for the packing branch
+                start = [0] * v.nd
+                count = [rng.range(2, 4) if (i == 0 and v.isrec) else d for i, d in enumerate(v.shape)]
+                stride = [1] * v.nd
             tok, memk, flex, bufkind = pick_mem(rng, v, 0, False)
             lim = O.pat_lim(memk, v.xtype)
             reqs = [(start, count, stride)]
@@ -244,6 +254,14 @@ def gen_program(rng, big=None):
                     if sd[0] > 1 and cn[0] > 1:
                         has_recstride = True
             p.steps.append(dict(kind='puts', ops=ops))
+            if rng.chance(1, 2):
+                # read the request back at once (a later put may overwrite it before the final reads)
+                st, cn, sd = reqs[0]
+                if not (v.isrec and numrecs == 0) and nelems(cn) > 0:
+                    gtok, gmemk, gflex, gbuf = pick_mem(rng, v, vmax.get(v.vid, 0), True)
+                    p.steps.append(dict(kind='get', ops=[dict(op='get', vid=v.vid, start=list(st), count=list(cn),
+                                                               stride=list(sd), tok=gtok, memk=gmemk, flex=gflex, bufkind=gbuf,
+                                                               defined=[True] * nelems(cn))]))
         elif c < 78:
             if v.isrec and numrecs == 0:
                 continue
@@ -356,7 +374,8 @@ def buf_tokens(rng, bufkind, nel):
     if bufkind == 'n':
         return 'n', ('n',)
     if bufkind == 'v' and nel > 0:
-        bl = rng.choice([d for d in range(1, min(nel, 64) + 1) if nel % d == 0])
+        divs = [d for d in range(1, min(nel, 64) + 1) if nel % d == 0]
+        bl = rng.choice(divs[:3] + divs)            # small blocks are more likely
         cnt = nel // bl
         st = bl + rng.below(3)
         return 'v %d %d %d' % (cnt, bl, st), ('v', cnt, bl, st)
